@@ -402,8 +402,10 @@ class FileInfo(os.PathLike):
         return {
             "path": self.path,
             "times": [
-                self.times[0].strftime("%Y-%m-%dT%H:%M:%S.%f"),
-                self.times[1].strftime("%Y-%m-%dT%H:%M:%S.%f")
+                # strftime("%Y") does not pad years < 1000 to the four
+                # digits that strptime("%Y") insists on; isoformat() does.
+                self.times[0].isoformat(timespec="microseconds"),
+                self.times[1].isoformat(timespec="microseconds"),
             ],
             "attr": self.attr,
         }
